@@ -1,3 +1,4 @@
 (* GenEquiv.v — the second tie between model and source (DESIGN.md 4.2), split by kernel so that an edit of one Go kernel breaks only
-   the lemmas (and the property files) that depend on it: GenTac (tactic, CalculateArithmeticShift), GenEqCheck, GenEqAlt, GenEqZoom, GenEqHigher, GenEqConst. *)
-From SID Require Export GenTac GenEqCheck GenEqAlt GenEqZoom GenEqHigher GenEqConst.
+   the lemmas (and the property files) that depend on it: GenTac (tactic, CalculateArithmeticShift), GenEqCheck, GenEqAlt, GenEqZoom, GenEqHigher, GenEqConst
+   over generated/Generated.v (integers), GenEqFloat (= GenFTac, GenEqFPoint, GenEqFVertex, GenEqFBit, GenEqFShift) over generated/GeneratedF.v (binary64). *)
+From SID Require Export GenTac GenEqCheck GenEqAlt GenEqZoom GenEqHigher GenEqConst GenEqFloat.
